@@ -517,7 +517,7 @@ func checkCase(c *lib.Ctx, cs *Case, distinct bool) int {
 // signature has been established three times by full minimisation in this worker, a later
 // failing case that carries the same class of values in the responsible dimensions is
 // attributed to it if neutralising just those dimensions removes (or changes) its first
-// finding; whatever still fails afterwards is examined further. One in eight
+// finding; whatever still fails afterwards is examined further. One in sixteen
 // such cases is minimised in full regardless.
 type knownMin struct {
 	sig         string
@@ -559,7 +559,7 @@ func tryFast(c *lib.Ctx, work *Case, f *finding) (*knownMin, *finding, *Case) {
 			continue
 		}
 		fastSeen++
-		if fastSeen%8 == 0 {
+		if fastSeen%16 == 0 {
 			return nil, nil, nil
 		}
 		t := work.clone()
